@@ -214,7 +214,7 @@ def check(ctx):
     from rules import independence
     independence.r28_functions(ctx, [('dataflows.processors.filter_rows:process_resource', {}),
                                      ('dataflows.processors.unpivot:unpivot_rows', {}),
-                                     ('dataflows.processors.deduplicate:deduper', {'keys': 'the set of primary keys seen so far'}),
+                                     ('dataflows.processors.deduplicate:deduper', {'__kinds__': ('SEEN',)}),
                                      ('dataflows.processors.deduplicate:deduplicate.func', {}),
                                      ('dataflows.processors.filter_rows:filter_rows.func', {}),
                                      ('dataflows.processors.unpivot:unpivot.func',
